@@ -30,7 +30,7 @@ class Monitor:
         """heap objects of the monitored class whose lock is this lock value"""
         out = []
         for r, o in I.st.heap.items():
-            if o.kind == "obj" and self.cls in self.E.mro(o.cls):
+            if o.kind == "obj" and self.cls in I.E.mro(o.cls):
                 lk = o.fields.get(self.lock_field)
                 if lk is lock or (isinstance(lk, VOpaque) and isinstance(lock, VOpaque) and lk.t is not None
                                   and lock.t is not None and lk.t.eq(lock.t)):
@@ -41,7 +41,7 @@ class Monitor:
         st = I.st
         o = st.heap[ref.ref]
         for f in self.fields:
-            ty = self.E.field_type(o.cls, f)
+            ty = I.E.field_type(o.cls, f)
             if ty is None:
                 raise Unsupported("monitored field %s has no declared type" % f)
             if f not in o.init and f not in o.fields:
@@ -59,7 +59,7 @@ class Monitor:
     def inv_terms(self, I, ref, fr):
         out = []
         for i, e in enumerate(self.invariant):
-            t = I.truthy(self.E.eval_spec(I, e, fr, {"self": ref}))
+            t = I.truthy(I.E.eval_spec(I, e, fr, {"self": ref}))
             out.append((i, t))
         return out
 
@@ -74,7 +74,7 @@ class Monitor:
 
     # ---- hooks
     def on_acquire(self, I, lock, fr, site):
-        k = self.E.lock_key(lock)
+        k = I.E.lock_key(lock)
         if I.st.held.get(k, 0) != 1:     # re-entrant acquire: nothing new
             return
         for ref in self.objects(I, lock):
@@ -82,13 +82,13 @@ class Monitor:
             self.assume_inv(I, ref, fr)
 
     def on_release(self, I, lock, fr, site):
-        k = self.E.lock_key(lock)
+        k = I.E.lock_key(lock)
         if I.st.held.get(k, 0) != 1:
             return
         # ghost effects of the running function are committed at its linearisation point: the release
-        top = self.E.contract_of(self.E.current_target) if self.E.current_target else None
+        top = I.E.contract_of(I.E.current_target) if I.E.current_target else None
         if top and top.get("on_release") and not I.callstack:
-            newg = {g: self.E.eval_spec(I, e, fr, {}) for g, e in top["on_release"].items()}
+            newg = {g: I.E.eval_spec(I, e, fr, {}) for g, e in top["on_release"].items()}
             I.st.ghost.update(newg)
         for ref in self.objects(I, lock):
             self.assert_inv(I, ref, fr, "release", site)
@@ -96,7 +96,7 @@ class Monitor:
     def on_wait(self, I, cond, timeout, fr, site):
         # cond is a Condition value stored in one of self.conditions of a monitored object
         for r, o in I.st.heap.items():
-            if o.kind == "obj" and self.cls in self.E.mro(o.cls):
+            if o.kind == "obj" and self.cls in I.E.mro(o.cls):
                 for cf in self.conditions:
                     if o.fields.get(cf) is cond:
                         ref = VRef(r)
@@ -108,12 +108,12 @@ class Monitor:
         if fr is None or fr.spec:
             return
         o = I.st.heap[ref.ref]
-        if name not in self.fields or self.cls not in self.E.mro(o.cls):
+        if name not in self.fields or self.cls not in I.E.mro(o.cls):
             return
         lock = o.fields.get(self.lock_field)
         if lock is None:
             lock = I.get_field(ref, self.lock_field, None)
-        if self.E.is_held(I, lock):
+        if I.E.is_held(I, lock):
             return
         q = I.callstack[-1] if I.callstack else (fr.finfo.qualname if fr.finfo else "?")
         top = fr.finfo.qualname if fr.finfo else "?"
